@@ -4,6 +4,7 @@ use serde_json::Value;
 pub mod c01;
 pub mod c02;
 pub mod c03;
+pub mod c03_shell;
 pub mod c04;
 pub mod c05;
 pub mod c07;
